@@ -264,4 +264,9 @@ func init() {
 		"	if !w.Start.Before(end) {", "	if w.prevCommit.IsZero() && !w.Start.Before(end) {", "C03.R3.validate")
 	mut("C05", "the last index group decides the reported error", "cesium/writer_stream.go",
 		"		if req.Frame, err = idx.write(&excludeUnauthorized, req.Frame); err != nil {\n			accumulatedErr = err\n", "		req.Frame, err = idx.write(&excludeUnauthorized, req.Frame)\n		accumulatedErr = err\n		if err != nil {\n", "C05.ERR")
+
+	mut("C05", "a stream-only write returns before asking the gate", "cesium/internal/unary/writer.go",
+		"		return 0, w.wrapError(err)\n	}\n	dw, err := w.control.Authorize()\n", "		return 0, w.wrapError(err)\n	}\n	if !*w.cfg.Persist && series.Len() == 0 {\n		return 0, nil\n	}\n	dw, err := w.control.Authorize()\n", "C05.R1.authorize")
+	mut("C20", "frames are shed when the relay pipe is full", "cesium/writer_stream.go",
+		"		w.relay.Inlet() <- relayResponse{", "		select {\n		case w.relay.Inlet() <- relayResponse{}:\n		default:\n		}\n		w.relay.Inlet() <- relayResponse{", "C20.R7.blocking")
 }
